@@ -22,6 +22,8 @@ type Program struct {
 	ssa         *ssa.Program
 	fns         map[string]*ssa.Function
 	specPrelude string
+	specBase    string
+	indAxioms   []string
 	sizes       types.Sizes
 	repo        string
 	contractFiles []string
@@ -263,6 +265,13 @@ func (p *Program) buildSpecPrelude() (err error) {
 	for _, a := range p.specs.Axioms {
 		env := &Env{g: g, vars: map[string]Val{}, pure: true}
 		sb.WriteString("(assert " + env.trBool(a.E) + ") ; axiom " + a.Name + "\n")
+	}
+	p.specBase = sb.String()
+	for _, l := range p.specs.IndLemmas {
+		env := &Env{g: g, vars: map[string]Val{}, pure: true}
+		t := env.trBool(l.E)
+		p.indAxioms = append(p.indAxioms, "(assert "+t+") ; inductive lemma "+l.Name+" (proved as obligation lemma/"+l.Name+")\n")
+		sb.WriteString(p.indAxioms[len(p.indAxioms)-1])
 	}
 	p.specPrelude = sb.String()
 	return nil
